@@ -1,2 +1,109 @@
-From Coq Require Import ZArith.
-Theorem C07_placeholder : True. Proof. exact I. Qed.
+(** * C07 -- interval arithmetic on approximate floats encloses the exact result.
+    Float tier: every theorem holds for EVERY binary floating-point format [(prec, emax)]
+    (binary64 = (53,1024) and binary32 = (24,128) are instances), for ALL finite well-formed
+    operand intervals and ALL reals inside them.  [NumB] is the Flocq instance of the model
+    in Model/RoundError.v; the same instance is executed against the crate on every run.
+    This file contains only statements closed by [exact]. *)
+From Coq Require Import ZArith Reals Floats.SpecFloat.
+From Flocq Require Import Core BinarySingleNaN.
+From G3 Require Import Model.Num Model.Base Model.RoundError Theory.IntervalSpec Proofs.C07_interval.
+
+Section C07.
+  Variable prec emax : Z.
+  Context (Hprec : FLX.Prec_gt_0 prec) (Hmax : Prec_lt_emax prec emax).
+  Notation bf := (binary_float prec emax).
+  Local Instance NB : Num bf := NumB prec emax Hprec Hmax.
+  Implicit Types I J : AF bf.
+  Implicit Types x y : R.
+  Implicit Types f : bf.
+
+  (** a result interval that contains a real is well formed (low <= high, no NaN) *)
+  Theorem C07_contains_wf : forall I x, contains I x -> ext_wf I.
+  Proof. exact (contains_ext_wf prec emax). Qed.
+
+  Theorem C07_neg : forall I x, wf I -> contains I x -> contains (af_neg I) (- x).
+  Proof. exact (af_neg_correct prec emax Hprec Hmax). Qed.
+
+  Theorem C07_add : forall I J x y, wf I -> wf J -> contains I x -> contains J y ->
+    contains (af_add I J) (x + y).
+  Proof. exact (af_add_correct prec emax Hprec Hmax). Qed.
+
+  Theorem C07_sub : forall I J x y, wf I -> wf J -> contains I x -> contains J y ->
+    contains (af_sub I J) (x - y).
+  Proof. exact (af_sub_correct prec emax Hprec Hmax). Qed.
+
+  Theorem C07_mul : forall I J x y, wf I -> wf J -> contains I x -> contains J y ->
+    contains (af_mul I J) (x * y).
+  Proof. exact (af_mul_correct prec emax Hprec Hmax). Qed.
+
+  Theorem C07_div : forall I J x y, wf I -> wf J -> no_zero J -> contains I x -> contains J y ->
+    contains (af_div I J) (x / y).
+  Proof. exact (af_div_correct prec emax Hprec Hmax). Qed.
+
+  Theorem C07_sqrt : forall I x, wf I -> (0 <= B2R (low I))%R -> contains I x ->
+    contains (af_sqrt I) (sqrt x).
+  Proof. exact (af_sqrt_correct prec emax Hprec Hmax). Qed.
+
+  (** scalar right-hand sides *)
+  Theorem C07_add_f : forall I f x, wf I -> is_finite f = true -> contains I x ->
+    contains (af_add_f I f) (x + B2R f).
+  Proof. exact (af_add_f_correct prec emax Hprec Hmax). Qed.
+  Theorem C07_sub_f : forall I f x, wf I -> is_finite f = true -> contains I x ->
+    contains (af_sub_f I f) (x - B2R f).
+  Proof. exact (af_sub_f_correct prec emax Hprec Hmax). Qed.
+  Theorem C07_mul_f : forall I f x, wf I -> is_finite f = true -> contains I x ->
+    contains (af_mul_f I f) (x * B2R f).
+  Proof. exact (af_mul_f_correct prec emax Hprec Hmax). Qed.
+  Theorem C07_div_f : forall I f x, wf I -> is_finite f = true -> B2R f <> 0%R -> contains I x ->
+    contains (af_div_f I f) (x / B2R f).
+  Proof. exact (af_div_f_correct prec emax Hprec Hmax). Qed.
+
+  (** in-place forms (the model of [a op= b] returns the new value of [a]) *)
+  Theorem C07_add_assign : forall I J x y, wf I -> wf J -> contains I x -> contains J y ->
+    contains (af_add_assign I J) (x + y).
+  Proof. exact (af_add_correct prec emax Hprec Hmax). Qed.
+  Theorem C07_sub_assign : forall I J x y, wf I -> wf J -> contains I x -> contains J y ->
+    contains (af_sub_assign I J) (x - y).
+  Proof. exact (af_sub_correct prec emax Hprec Hmax). Qed.
+  Theorem C07_mul_assign : forall I J x y, wf I -> wf J -> contains I x -> contains J y ->
+    contains (af_mul_assign I J) (x * y).
+  Proof. exact (af_mul_assign_correct prec emax Hprec Hmax). Qed.
+  Theorem C07_div_assign : forall I J x y, wf I -> wf J -> no_zero J -> contains I x -> contains J y ->
+    contains (af_div_assign I J) (x / y).
+  Proof. exact (af_div_assign_correct prec emax Hprec Hmax). Qed.
+  Theorem C07_add_assign_f : forall I f x, wf I -> is_finite f = true -> contains I x ->
+    contains (af_add_assign_f I f) (x + B2R f).
+  Proof. exact (af_add_f_correct prec emax Hprec Hmax). Qed.
+  Theorem C07_sub_assign_f : forall I f x, wf I -> is_finite f = true -> contains I x ->
+    contains (af_sub_assign_f I f) (x - B2R f).
+  Proof. exact (af_sub_f_correct prec emax Hprec Hmax). Qed.
+  Theorem C07_mul_assign_f : forall I f x, wf I -> is_finite f = true -> contains I x ->
+    contains (af_mul_assign_f I f) (x * B2R f).
+  Proof. exact (af_mul_assign_f_correct prec emax Hprec Hmax). Qed.
+  Theorem C07_div_assign_f : forall I f x, wf I -> is_finite f = true -> B2R f <> 0%R -> contains I x ->
+    contains (af_div_assign_f I f) (x / B2R f).
+  Proof. exact (af_div_assign_f_correct prec emax Hprec Hmax). Qed.
+End C07.
+
+(** non-vacuity: a concrete binary64 interval meets the hypotheses *)
+Example C07_nonvacuous :
+  let one := B64ofSF (S754_finite false 4503599627370496 (-52)) in
+  let two := B64ofSF (S754_finite false 4503599627370496 (-51)) in
+  wf (mkAF one two) /\ contains (mkAF one two) 1.5%R /\ no_zero (mkAF one two).
+Proof. exact C07_nonvacuous_proof. Qed.
+
+(** the pinned tree (before fix d71c7af) violated the property: machine-checked witnesses *)
+Theorem C07_pinned_neg_refuted : exists I : AF b64, wf I /\ ~ ext_wf (Pinned.af_neg_pinned I).
+Proof. exact pinned_neg_refuted. Qed.
+Theorem C07_pinned_sub_refuted :
+  exists (I J : AF b64) (x y : R), wf I /\ wf J /\ contains I x /\ contains J y /\ ~ contains (Pinned.af_sub_pinned I J) (x - y).
+Proof. exact pinned_sub_refuted. Qed.
+Theorem C07_pinned_mul_f_refuted :
+  exists (I : AF b64) (f : b64) (x : R), wf I /\ is_finite f = true /\ contains I x /\ ~ contains (Pinned.af_mul_f_pinned I f) (x * B2R f).
+Proof. exact pinned_mul_f_refuted. Qed.
+(** a further defect found while proving the in-place forms (before fix 9777db4):
+    next_float_down(+0.0) = +0.0 lost a product that underflowed to -0 *)
+Theorem C07_pinned_mul_assign_refuted :
+  exists (I J : AF b64) (x y : R), wf I /\ wf J /\ contains I x /\ contains J y /\
+    ~ contains (Pinned.af_mul_assign_pinned 53 1024 Hprec53 Hmax1024 I J) (x * y).
+Proof. exact pinned_mul_assign_refuted. Qed.
